@@ -35,6 +35,9 @@ pub struct Case {
     /// only the option sets containing dense_output are compared with the plain run
     #[serde(default)]
     pub long_run: Option<u32>,
+    /// this many additional, equally spaced requested times (long t_eval lists: more points than RK4's default 100 steps)
+    #[serde(default)]
+    pub te_extra: u16,
 }
 
 struct One {
@@ -97,7 +100,13 @@ pub fn check(c: &Case) -> Outcome {
     };
     let p = &plain.sol;
     // requested times are placed relative to the plain run's own step grid
-    let te = resolve_places(&c.t_eval, &p.t, sp);
+    let mut te = resolve_places(&c.t_eval, &p.t, sp);
+    if c.te_extra > 0 {
+        let m = c.te_extra as f64;
+        te.extend((0..c.te_extra).map(|i| sp.x0 + (i as f64 + 0.5) / m * (sp.xend - sp.x0)));
+        let d = sp.dir();
+        te.sort_by(|a, b| (a * d).partial_cmp(&(b * d)).unwrap());
+    }
     let mut evs = evs;
     for (k, t) in resolve_places(&c.ev_places, &p.t, sp).into_iter().enumerate() {
         evs.push(EvSpec { g: Ev::Time { c: t }, dir: (k % 3) as i8 - 1, terminal: None });
@@ -175,6 +184,24 @@ pub fn check(c: &Case) -> Outcome {
             if !same {
                 return Outcome::viol(format!("{}: two identical calls with all options gave different results", c.method.name()));
             }
+            // ... and so does the same call made on a thread that has never called the library before (no state may
+            // survive from one call to the next, e.g. in thread-local scratch storage)
+            let fresh = std::thread::scope(|sc| sc.spawn(|| one(c, &prob, &evs, Some(te.clone()), true).map(|o| (o.sol.t, o.sol.y, o.sol.t_events, o.sol.y_events, o.hash))).join());
+            match fresh {
+                Ok(Ok((t, y, tev, yev, hash))) => {
+                    let same = bits_eq(&a.sol.t, &t)
+                        && bits_eq2(&a.sol.y, &y)
+                        && hash == a.hash
+                        && a.sol.t_events.len() == tev.len()
+                        && a.sol.t_events.iter().zip(&tev).all(|(x, y)| bits_eq(x, y))
+                        && a.sol.y_events.iter().zip(&yev).all(|(x, y)| bits_eq2(x, y));
+                    if !same {
+                        return Outcome::viol(format!("{}: the call with all options gives different results on a fresh thread than on a thread that has made calls before (events {:?} vs {:?})", c.method.name(), tev.iter().map(|v| v.len()).collect::<Vec<_>>(), a.sol.t_events.iter().map(|v| v.len()).collect::<Vec<_>>()));
+                    }
+                }
+                Ok(Err(e)) => return Outcome::viol(format!("{}: the call with all options fails on a fresh thread: {}", c.method.name(), e)),
+                Err(_) => return Outcome::viol(format!("{}: the call with all options panics on a fresh thread", c.method.name())),
+            }
         }
     }
     let nontrivial = (p.nrejct > 0 || p.naccpt >= 10) && subsets_checked >= if c.long_run.is_some() { 2 } else { 3 };
@@ -192,9 +219,9 @@ pub fn strategy() -> BoxedStrategy<Case> {
         proptest::collection::vec(event_spec(6, false), 0..=3),
         proptest::option::weighted(0.2, fr(0.02, 0.5)),
         proptest::option::weighted(0.1, 3usize..60),
-        (prop_oneof![1 => Just(vec![]).boxed(), 1 => places(3).boxed()], proptest::option::weighted(0.3, log10(-3.0, -0.5)), proptest::option::weighted(0.001, 100_001u32..125_000)),
+        (prop_oneof![1 => Just(vec![]).boxed(), 1 => places(3).boxed()], proptest::option::weighted(0.3, log10(-3.0, -0.5)), proptest::option::weighted(0.001, 100_001u32..125_000), prop_oneof![14 => Just(0u16), 1 => 90u16..400]),
     )
-        .prop_map(|(mut prob, span, method, (rtol, atol), analytic_jac, t_eval, events, max_step, max_steps, (ev_places, first_step, long_run))| {
+        .prop_map(|(mut prob, span, method, (rtol, atol), analytic_jac, t_eval, events, max_step, max_steps, (ev_places, first_step, long_run, te_extra))| {
             if long_run.is_some() {
                 // keep the 100 000-step runs cheap: at most three components
                 let mut d = 0;
@@ -203,7 +230,7 @@ pub fn strategy() -> BoxedStrategy<Case> {
                     prob.blocks.push(Block::Real { lam: -0.5, u0: 1.0 });
                 }
             }
-            Case { prob, span, method, rtol, atol, analytic_jac, t_eval, events, max_step, max_steps, ev_places, first_step, long_run }
+            Case { prob, span, method, rtol, atol, analytic_jac, t_eval, events, max_step, max_steps, ev_places, first_step, long_run, te_extra: if long_run.is_some() { 0 } else { te_extra } }
         })
         .boxed()
 }
@@ -216,7 +243,7 @@ pub fn run(ctx: &Ctx, known: &[Known]) -> Report {
     let stats = run_generated(ctx, "C12", "gen", &strategy, &check, cases, known);
     Report {
         id: "C12".into(),
-        rule: "cases = closed-form problems (n<=6) x spans x six methods x tolerances x analytic/FD Jacobian x generated t_eval and 0..3 non-terminal event functions x optional max_step/max_steps; each case runs the plain call, the 7 non-empty subsets of {t_eval, dense_output, events} and a repeat, and compares statistics, samples, dense output and a hash of every (t,y) argument passed to the right-hand side. One case in a thousand is a long run (max_step = span/N with N > 100 000, no step budget; the option sets with dense_output are compared). Non-trivial = (>=1 rejected step or >=10 accepted steps) and at least 3 option sets compared. Distinct = distinct canonical JSON.".into(),
+        rule: "cases = closed-form problems (n<=6) x spans x six methods x tolerances x analytic/FD Jacobian x generated t_eval and 0..3 non-terminal event functions x optional max_step/max_steps; each case runs the plain call, the 7 non-empty subsets of {t_eval, dense_output, events} and a repeat, and compares statistics, samples, dense output and a hash of every (t,y) argument passed to the right-hand side. One case in fifteen requests 90..400 additional equally spaced times (more than RK4's default 100 steps); the fully-optioned call is repeated on the same thread and on a thread that has never called the library. One case in a thousand is a long run (max_step = span/N with N > 100 000, no step budget; the option sets with dense_output are compared). Non-trivial = (>=1 rejected step or >=10 accepted steps) and at least 3 option sets compared. Distinct = distinct canonical JSON.".into(),
         assumptions: vec!["bit-identity of f64 values; dense span end compared with the plain run's last time to 1e-12 + 4 ulp".into()],
         min_nontrivial_frac: 0.4,
         stats,
